@@ -1,7 +1,7 @@
 """C01 — removal is quiescent; snapshots freed after the barrier, outside any handler (structural part)."""
 import re
 from .. import cfg
-from ..anchors import handler, halflocks, dispatch_cone, action_dyn, is_user_code
+from ..anchors import handler, dispatch_cone, action_dyn, is_user_code
 from ..atomics import sites, recv_field, at_least, ordering_names
 from ..facts import strip_generics, keyname, AnchorLost
 from ..flow import flow, deep_strip, strip, show, mentions, fold
@@ -12,369 +12,33 @@ RG = "signal_hook_registry::half_lock::ReadGuard"
 WG = "signal_hook_registry::half_lock::WriteGuard"
 
 
-_F = [None]
-
-
-class Roles:
-    """fields of the half lock located by type"""
-
-    def __init__(self, F):
-        _F[0] = F
-        a = F.adt(HL)
-        fs = a["variants"][0]["fields"]
-        self.ptr = [f["name"] for f in fs if re.match(r"^core::sync::atomic::Atomic<\*mut \w+>$", f["ty"])]
-        self.slots = [f["name"] for f in fs if re.match(r"^\[core::sync::atomic::Atomic<usize>; \d+\]$", f["ty"])]
-        self.gen = [f["name"] for f in fs if f["ty"] == "core::sync::atomic::Atomic<usize>"]
-        self.mutex = [f["name"] for f in fs if f["ty"].startswith("std::sync::poison::mutex::Mutex<")]
-        for nm, v in (("snapshot pointer (AtomicPtr<T>)", self.ptr), ("reader slots ([AtomicUsize; N])", self.slots),
-                      ("generation (AtomicUsize)", self.gen), ("writer mutex", self.mutex)):
-            if len(v) != 1:
-                raise AnchorLost("half lock: cannot identify the %s field by type: %s" % (nm, v))
-        self.ptr, self.slots, self.gen, self.mutex = self.ptr[0], self.slots[0], self.gen[0], self.mutex[0]
-        self.n = int(re.search(r"; (\d+)\]", [f["ty"] for f in fs if f["name"] == self.slots][0]).group(1))
+from . import hl
+from .hl import Roles, on_field, HL as _HL
 
 
 def hl_methods(F, T):
-    """workspace functions instantiated for HalfLock<T> / its guards"""
-    out = []
-    for i in F.inst:
-        if i.local and i.body is not None and i.crate == "signal_hook_registry" and \
-                ("half_lock::HalfLock::<%s>" % T in i.name or "half_lock::WriteGuard::<'_, %s>" % T in i.name or
-                 "half_lock::ReadGuard<'_, %s>" % T in i.name or "half_lock::HalfLock<%s>" % T in i.name):
-            out.append(i)
-    return out
-
-
-def on_field(site, field):
-    bt, f = recv_field(site)
-    if f == field and bt is not None and HL in bt:
-        return True
-    # the atomic may be selected by a private helper returning a reference into the lock (`self.slot_for(gen)`)
-    F = _F[0]
-    if F is None:
-        return False
-    for e in site.recv:
-        x = e
-        while x[0] in ("ref", "deref"):
-            x = deep_strip(x[1])
-        if x[0] == "call" and x[2] is not None:
-            c = F.inst[x[2]]
-            if c.local and c.body is not None and c.crate == "signal_hook_registry":
-                rets = [deep_strip(r) for rb in c.exits() for r in flow(c).place({"l": 0, "p": []}, (rb, len(c.stmts(rb))))]
-                if rets and all(mentions(r, lambda y: y[0] == "field" and y[2] == field and HL in (y[4] or "")) for r in rets):
-                    return True
-    return False
-
-
-def closures_of(F, m):
-    """closure instances defined inside m (same monomorphic parent)"""
-    return [i for i in F.inst if i.kind == "closure" and i.body is not None and i.name.startswith(m.name + "::{closure#")]
-
-
-def reads_slots(F, m, R):
-    """does m sample reader slots: it borrows the slots field (as a whole or by index) and loads an AtomicUsize — in its own
-    body or in a closure defined in it (e.g. passed to an iterator adapter)"""
-    whole = False; idx = []
-    for bl in m.blocks:
-        for s in bl["s"]:
-            if s["k"] != "assign":
-                continue
-            r = s["r"]
-            pl = r.get("p") if r["k"] in ("ref", "rawptr") else (r["o"].get("p") if r["k"] == "use" and r["o"].get("p") else None)
-            if not pl:
-                continue
-            for n, p in enumerate(pl["p"]):
-                if p["k"] == "field" and p["n"] == R.slots and HL in (p.get("bt") or ""):
-                    rest = pl["p"][n + 1:]
-                    if not rest:
-                        whole = True
-                    for q in rest:
-                        if q["k"] == "cindex":
-                            idx.append(q["i"])
-                        elif q["k"] == "index":
-                            idx.append(("var", q["l"]))
-    loads = [s for s in sites(F, m) if s.op == "load" and s.aty == "usize"]
-    for c in closures_of(F, m):
-        loads += [s for s in sites(F, c) if s.op == "load" and s.aty == "usize"]
-    return whole, idx, loads
-
-
-SHORT_CIRCUIT = ("all", "any", "find", "find_map", "position", "rposition", "try_for_each", "try_fold", "take_while", "skip_while", "map_while",
-                 "scan", "is_sorted_by", "eq_by", "cmp_by")
-
-
-def short_circuit_sampling(F, m, R):
-    """slot loads that sit in a closure handed to a short-circuiting iterator combinator: [(combinator, span)]"""
-    out = []
-    for c in closures_of(F, m):
-        if not [s for s in sites(F, c) if s.op == "load" and s.aty == "usize"]:
-            continue
-        for bb, t in m.calls():
-            for ai, a in enumerate(t["args"]):
-                for e in flow(m).term_arg(bb, ai):
-                    e = deep_strip(e)
-                    if e[0] == "agg" and e[1][0] == "closure" and e[1][1] == c.defp:
-                        name = (t.get("def") or "").split("::")[-1]
-                        if name in SHORT_CIRCUIT:
-                            out.append((name, t["sp"]))
-    return out
-
-
-def rule_a(ctx, R, T):
-    F = ctx.F
-    rid = "C01.a"
-    sw = []
-    for m in hl_methods(F, T):
-        for s in sites(F, m):
-            if s.op == "swap" and on_field(s, R.ptr):
-                sw.append(s)
-    if len(sw) != 1:
-        raise AnchorLost("HalfLock<%s>: expected exactly one swap of the snapshot pointer, found %d" % (T, len(sw)))
-    s = sw[0]; m = s.inst
-    ctx.fn(m)
-    raws = call_sites(F, m, lambda c: c.defp == "alloc::boxed::Box::<T>::from_raw")
-    raws = [(bb, t, c) for (bb, t, c) in raws if any(mentions(e, lambda x: x[0] == "call" and x[1] == s.bb) for e in flow(m).term_arg(bb, 0))]
-    key = "writer-order:%s" % T
-    if not raws:
-        # the old box may be handed to a helper; then the helper call is the "free"
-        ctx.bad(rid, key, "the pointer returned by the swap never reaches Box::from_raw in %s (old snapshot leaked or freed elsewhere)" % m.name, s.sp)
-        return None
-    # free points: where the rebuilt box is actually dropped (a Drop terminator on it, or mem::drop of it) on non-cleanup paths
-    frees = []
-    for (rb, rt, rc) in raws:
-        fl = flow(m)
-        for bb, bl in enumerate(m.blocks):
-            if bl["cleanup"]:
-                continue
-            t = bl["t"]
-            if t["k"] == "drop" and "alloc::boxed::Box<" in t["ty"]:
-                if any(mentions(e, lambda x: x[0] == "call" and x[1] == rb) for e in fl.term_place(bb, t["p"])):
-                    frees.append((bb, t, rc))
-            if t["k"] == "call" and (t.get("def") or "") == "core::mem::drop" and t["args"]:
-                if any(mentions(e, lambda x: x[0] == "call" and x[1] == rb) for e in fl.term_arg(bb, 0)):
-                    frees.append((bb, t, rc))
-        if not [f for f in frees]:
-            frees.append((rb, rt, rc))      # dropped implicitly at the from_raw site (temporary): the site itself is the free point
-    barrier_calls = []
-    for bb, t in m.calls():
-        if t.get("f") is None:
-            continue
-        c = F.inst[t["f"]]
-        if not (c.local and c.body is not None):
-            continue
-        par = F.reach([c])
-        for x in par:
-            xi = F.inst[x]
-            if xi.body is None or not xi.local:
-                continue
-            whole, idx, loads = reads_slots(F, xi, R)
-            if (whole or idx) and loads:
-                barrier_calls.append(bb); break
-    for (fb, ft, fc) in frees:
-        okk, leak = cfg.every_path_passes(m, s.bb, [fb], barrier_calls)
-        # the barrier must have *completed*: the free is reached through its return edge, not its unwind edge
-        via_unwind = any(fb in cfg.reachable_after(m, b, labels=["unw"]) and
-                         fb not in cfg.reachable_after(m, b, labels=["ret"]) for b in barrier_calls)
-        ctx.check(okk and barrier_calls and not via_unwind, rid, key,
-                  "old snapshot of HalfLock<%s> is freed only after the completed reader barrier that follows the pointer swap" % T,
-                  ft["sp"], {"swap": s.sp, "barrier_calls_between": [m.term(b)["sp"] for b in barrier_calls],
-                             "path_without_barrier": cfg.path(m, s.bb, fb, avoid=set(barrier_calls)) if not okk else None})
-    return m, s, barrier_calls
-
-
-def rule_b(ctx, R, T):
-    F = ctx.F
-    rid = "C01.b"
-    readers = [m for m in hl_methods(F, T) if adt_constructions(m, RG)]
-    if len(readers) != 1:
-        raise AnchorLost("HalfLock<%s>: expected exactly one function constructing the read guard, found %s" % (T, [r.name for r in readers]))
-    m = readers[0]
-    ctx.fn(m)
-    ss = sites(F, m)
-    inc = [s for s in ss if s.op == "fetch_add" and on_field(s, R.slots)]
-    lds = [s for s in ss if s.op == "load" and on_field(s, R.ptr)]
-    key = "reader-order:%s" % T
-    if len(inc) != 1 or len(lds) != 1:
-        ctx.bad(rid, key, "read(): expected one reader-count increment and one snapshot-pointer load, found %d / %d" % (len(inc), len(lds)), m.span,
-                "loading the pointer twice (or not counting) breaks the reader protocol")
-        return m, inc, lds
-    dom = cfg.dominators(m)
-    ctx.check(inc[0].bb in dom[lds[0].bb] and inc[0].bb != lds[0].bb, rid, key,
-              "reader increments its slot counter before it loads the snapshot pointer (HalfLock<%s>)" % T, lds[0].sp,
-              {"increment": inc[0].sp, "pointer_load": lds[0].sp, "problem": "the increment does not dominate the load"})
-    (abb, asi, rv) = adt_constructions(m, RG)[0]
-    fl = flow(m)
-    fields = rv["fields"]
-    data_ok = slot_ok = False
-    slot_field = None
-    for fi, fname in enumerate(fields):
-        ex = [deep_strip(e) for e in fl.operand(rv["ops"][fi], (abb, asi))]
-        if all(mentions(e, lambda x: x[0] == "call" and x[1] == lds[0].bb) for e in ex):
-            data_ok = True
-        if ex and all(any(e == r for r in inc[0].recv) for e in ex):
-            slot_ok = True; slot_field = fname
-    ctx.check(data_ok and slot_ok, rid, "guard-binding:%s" % T, "the guard is built from that very pointer and that very slot reference", rv.get("sp") or m.span,
-              {"data_from_load": data_ok, "slot_is_incremented_one": slot_ok})
-    return m, inc, lds, slot_field
-
-
-def rule_c(ctx, R, T, slot_field):
-    F = ctx.F
-    rid = "C01.c"
-    drops = [i for i in F.inst if i.local and i.body is not None and i.name == "<%s<'_, %s> as core::ops::drop::Drop>::drop" % (RG, T)]
-    if len(drops) != 1:
-        raise AnchorLost("Drop for ReadGuard<%s>" % T)
-    d = drops[0]
-    ctx.fn(d)
-    ss = sites(F, d)
-    dec = [s for s in ss if s.op == "fetch_sub"]
-    okk = len(dec) == 1 and len(ss) == 1
-    why = None
-    if okk:
-        e1, why1 = exactly_once(d, [dec[0].bb])
-        amt = [fold(e) for e in flow(d).term_arg(dec[0].bb, 1)]
-        bt, f = recv_field(dec[0])
-        okk = e1 and amt == [1] and f == slot_field and bt and RG in bt
-        why = {"once": why1, "amount": amt, "field": f, "expected_field": slot_field}
-    ctx.check(okk, rid, "release:%s" % T, "dropping the guard decrements exactly once, by 1, the counter reference stored at construction", d.span,
-              why or {"atomic_ops_in_drop": [repr(s) for s in ss]})
-    # guards are constructed only in read()
-    others = [i.name for i in F.inst if i.local and i.body is not None and adt_constructions(i, RG) and "::read" not in i.name
-              and not re.search(r"half_lock::HalfLock::<.*>::\w+$", i.name)]
-    ctx.check(not others, rid, "guard:single-constructor", "read guards are constructed only by the half lock itself", None, others)
-    return dec
-
-
-def rule_d(ctx, R, T, reader, inc, lds, swap_site, dec):
-    F = ctx.F
-    rid = "C01.d"
-
-    def chk(site, minimum, role, what):
-        names = site.orders[0] if site.orders else []
-        ctx.check(at_least(names, minimum, role), rid, "ordering:%s:%s" % (what, T),
-                  "%s is %s (minimum %s; store-buffering pair, see oracle/ordering_minima.md)" % (what, "/".join(names), minimum), site.sp,
-                  {"declared": names, "minimum": minimum})
-    if inc:
-        chk(inc[0], "SeqCst", "rmw", "reader slot fetch_add")
-    if lds:
-        chk(lds[0], "SeqCst", "load", "reader snapshot-pointer load")
-    chk(swap_site, "SeqCst", "rmw", "writer snapshot-pointer swap")
-    if dec:
-        chk(dec[0], "Release", "rmw", "guard release fetch_sub")
-    # writer-side slot loads (barrier)
-    n = 0
-    for m in hl_methods(F, T):
-        if m.id == reader.id:
-            continue
-        whole, idx, loads = reads_slots(F, m, R)
-        if not (whole or idx):
-            continue
-        for s in loads:
-            n += 1
-            chk(s, "SeqCst", "load", "writer reader-slot load")
-    if n == 0:
-        raise AnchorLost("no writer-side load of the reader slots found for HalfLock<%s>" % T)
-    # remaining atomic accesses: any valid ordering
-    for m in hl_methods(F, T):
-        for s in sites(F, m):
-            if on_field(s, R.gen) or (s.op == "load" and on_field(s, R.ptr) and m.id != reader.id):
-                names = s.orders[0] if s.orders else []
-                ctx.check(names and not any(x.startswith("?") for x in names), rid, "ordering:aux:%s:%s@%s" % (s.op, T, keyname(m.name).split("::")[-1]),
-                          "auxiliary access (%s) has a constant ordering %s (minimum Relaxed)" % (s.op, names), s.sp, names)
-
-
-def rule_e(ctx, R, T, reader):
-    F = ctx.F
-    rid = "C01.e"
-    found = 0
-    for m in hl_methods(F, T):
-        if m.id == reader.id:
-            continue
-        whole, idx, loads = reads_slots(F, m, R)
-        if not loads or not (whole or idx):
-            continue
-        found += 1
-        const_idx = sorted({i for i in idx if isinstance(i, int)})
-        okk = whole or const_idx == list(range(R.n))
-        ctx.check(okk, rid, "barrier-covers-all:%s" % T, "the writer-side wait reads the whole reader-slot array (all %d slots)" % R.n, m.span,
-                  {"whole_array_borrow": whole, "indices": [str(i) for i in idx], "problem": "only some reader slots are waited for"})
-        sc = short_circuit_sampling(F, m, R)
-        ctx.check(not sc, rid, "every-slot-every-pass:%s" % T, "every pass samples every reader slot (the loads are not under a short-circuiting iterator combinator)", m.span,
-                  {"short_circuiting": sc, "why": "a slot that is skipped while another one is busy can never be recorded as idle; with overlapping deliveries the writer then spins forever"})
-    if not found:
-        raise AnchorLost("barrier function for HalfLock<%s>" % T)
-
-
-def rule_h(ctx, R, T, swap_fn, swap_site):
-    """every sampling of the reader slots on the writer side happens after the pointer swap: a zero observed before the swap says
-    nothing about readers that may still pick up the old pointer"""
-    F = ctx.F
-    rid = "C01.h"
-    readers = {m.id for m in hl_methods(F, T) if adt_constructions(m, RG)}
-    samplers = []
-    for m in hl_methods(F, T):
-        if m.id in readers:
-            continue
-        whole, idx, loads = reads_slots(F, m, R)
-        if (whole or idx) and loads:
-            samplers.append(m)
-    if not samplers:
-        raise AnchorLost("no writer-side sampling of the reader slots for HalfLock<%s>" % T)
-    callers = F.callers()
-    dom = cfg.dominators(swap_fn)
-    memo = {}
-
-    def post_swap_only(fid, depth=0):
-        """(ok, witness) — is every call chain into fid rooted at a call site that the swap dominates?"""
-        if fid in memo:
-            return memo[fid]
-        memo[fid] = (True, None)     # cycles: optimistic
-        cs = [(c, k, bb) for (c, k, bb) in callers.get(fid, []) if k == "call" and F.inst[c].local]
-        if not cs:
-            memo[fid] = (False, "%s has no caller" % F.inst[fid].name); return memo[fid]
-        for (c, k, bb) in cs:
-            if c == swap_fn.id:
-                if not (swap_site.bb in dom[bb] and swap_site.bb != bb):
-                    memo[fid] = (False, "%s calls %s at %s, which the pointer swap does not dominate" % (F.inst[c].name, F.inst[fid].name.split("::")[-1], F.inst[c].term(bb)["sp"]))
-                    return memo[fid]
-            else:
-                ok, w = post_swap_only(c, depth + 1)
-                if not ok:
-                    memo[fid] = (False, "%s is called from %s at %s; %s" % (F.inst[fid].name.split("::")[-1], F.inst[c].name, F.inst[c].term(bb)["sp"], w)) \
-                        if c != swap_fn.id and not _calls_after_swap_only(F, c, swap_fn) else (False, w)
-                    return memo[fid]
-        return memo[fid]
-    for m in samplers:
-        if m.id == swap_fn.id:
-            # sampling inlined into the swapping function: every slot load must be dominated by the swap
-            whole, idx, loads = reads_slots(F, m, R)
-            okk = all(swap_site.bb in dom[l.bb] and swap_site.bb != l.bb for l in loads if l.aty == "usize" and not on_field(l, R.gen))
-            ctx.check(okk, rid, "sample-after-swap:%s@%s" % (T.split("::")[-1], keyname(m.name).split("::")[-1]), "reader slots are sampled only after the pointer swap", m.span, None)
-            continue
-        ok, w = post_swap_only(m.id)
-        ctx.check(ok, rid, "sample-after-swap:%s@%s" % (T.split("::")[-1], keyname(m.name).split("::")[-1]),
-                  "%s samples the reader slots only on call chains that start after the pointer swap" % m.name.split("::")[-1], m.span,
-                  {"witness": w, "why": "a slot seen idle before the swap proves nothing: a reader may enter afterwards and still load the old pointer"})
-
-
-def _calls_after_swap_only(F, c, swap_fn):
-    return False
+    return hl.methods(F, T)
 
 
 def rule_f(ctx, R, types):
     F = ctx.F
     rid = "C01.f"
-    # every Box::<T>::from_raw on a snapshot type: in the swap function (C01.a) or in Drop for HalfLock<T> (&mut self)
+    # every Box::<T>::from_raw on a snapshot type: in the swapping writer (C01.a) or in Drop for HalfLock<T> (&mut self); the call may
+    # sit in a private helper, so each site is attributed to the lock entry points whose normal form contains it
+    from .. import inline
+    views = {T: hl.View(F, R, T) for T in types}
     for i in F.inst:
         if i.body is None or not i.local:
             continue
         for bb, t, c in call_sites(F, i, lambda c: c.defp == "alloc::boxed::Box::<T>::from_raw" and c.args and c.args[0] in types):
             T = c.args[0]
-            in_store = any(s.op == "swap" and on_field(s, R.ptr) for s in sites(F, i))
-            in_drop = re.match(r"^<%s<.*> as core::ops::drop::Drop>::drop$" % re.escape(HL), i.name) is not None
-            ctx.check(in_store or in_drop, rid, "free-site:%s@%s" % (T.split("::")[-1], keyname(i.name).split("::")[-1]),
+            V = views[T]
+            owners = [r for r in V.roots if r.id == i.id or i.id in inline.all_inlined(V.n[r.id])]
+            sw = {m.id for m in V.swappers}
+            okk = bool(owners) and all(r.id in sw or re.match(r"^<%s<.*> as core::ops::drop::Drop>::drop$" % re.escape(HL), r.name) for r in owners)
+            ctx.check(okk, rid, "free-site:%s@%s" % (T.split("::")[-1], keyname(i.name).split("::")[-1]),
                       "a snapshot box is rebuilt from its raw pointer only by the swapping writer (after the barrier) or by Drop for the lock",
-                      t["sp"], "Box::from_raw on a snapshot in %s" % i.name)
+                      t["sp"], {"in": i.name, "reached_from_entry_points": [r.name for r in owners]})
     # values loaded from the pointer field are only shared-reborrowed
     for i in F.inst:
         if i.body is None or not i.local or i.crate != "signal_hook_registry":
@@ -434,7 +98,6 @@ def rule_g(ctx):
 
 
 def run(ctx):
-    _F[0] = ctx.F
     from .. import fixtures
     ctx.guarded("C01.FX", lambda c: fixtures.run(c, ['escapes', 'orderings', 'effects']))
     F = ctx.F
@@ -454,16 +117,17 @@ def run(ctx):
 
     def body(ctx):
         R = Roles(F)
-        types = halflocks(F)
+        types = hl.lock_types(F)
         for T in types:
-            a = ctx.guarded("C01.a", rule_a, R, T)
-            b = ctx.guarded("C01.b", rule_b, R, T)
-            slot_field = b[3] if b and len(b) > 3 else None
-            dec = ctx.guarded("C01.c", rule_c, R, T, slot_field)
+            V = hl.View(F, R, T)
+            a = ctx.guarded("C01.a", lambda c: hl.rule_writer_order(c, "C01.a", V))
+            b = ctx.guarded("C01.b", lambda c: hl.rule_reader_order(c, "C01.b", V))
+            slot_field = b[4] if b else None
+            dec = ctx.guarded("C01.c", lambda c: hl.rule_release(c, "C01.c", V, slot_field))
             if a and b:
-                ctx.guarded("C01.d", rule_d, R, T, b[0], b[1], b[2], a[1], dec)
-                ctx.guarded("C01.e", rule_e, R, T, b[0])
-                ctx.guarded("C01.h", rule_h, R, T, a[0], a[1])
+                ctx.guarded("C01.d", lambda c: hl.rule_orderings(c, "C01.d", V, b[2], b[3], a[2], dec))
+                ctx.guarded("C01.e", lambda c: hl.rule_covers_all(c, "C01.e", V))
+                ctx.guarded("C01.h", lambda c: hl.rule_sample_after_swap(c, "C01.h", V))
         ctx.guarded("C01.f", rule_f, R, types)
     ctx.guarded("C01.a", body)
     ctx.guarded("C01.g", rule_g)
